@@ -121,8 +121,15 @@ def gcirc(ra1, dec1, ra2, dec2, units=2):
         delra2 = np.deg2rad(ra2-ra1)/2.0
     else:
         raise ValueError('units must be 0, 1 or 2!')
-    sindis = np.sqrt(np.sin(deldec2)*np.sin(deldec2) +
-                     np.cos(dcrad1)*np.cos(dcrad2)*np.sin(delra2)*np.sin(delra2))
+    #
+    # The rounded radian value of a pole can lie beyond pi/2 (float32(pi/2)
+    # > pi/2), where the cosine is negative: for (nearly) coincident points
+    # at a pole, in particular when the declinations differ in precision,
+    # the haversine then comes out slightly negative and its root is NaN.
+    #
+    hav = (np.sin(deldec2)*np.sin(deldec2) +
+           np.cos(dcrad1)*np.cos(dcrad2)*np.sin(delra2)*np.sin(delra2))
+    sindis = np.sqrt(np.maximum(hav, 0.0))
     #
     # For (nearly) antipodal points rounding can push the sine of the half
     # distance to 1 + 1 ulp, which arcsin answers with NaN.
